@@ -447,22 +447,12 @@ func (l *Local) Allocate(ctx context.Context, cni *daemon.CNI, request ResourceR
 
 	if ok1 && ok2 {
 		// direct return
-		respCh := make(chan *AllocResp)
 		// assign ip to pod , as we are ready
 		// this must be protected by lock
-		if ipv4 != nil {
-			ipv4.Allocate(cni.PodID)
-		}
-		if ipv6 != nil {
-			ipv6.Allocate(cni.PodID)
-		}
-
-		go func() {
-			l.cond.L.Lock()
-			defer l.cond.L.Unlock()
-
-			l.commit(ctx, respCh, ipv4, ipv6, cni.PodID)
-		}()
+		// The result is committed right here through a buffered channel. A goroutine committing later
+		// could run after the request is gone (canceled) and release an ip the pod got back by a retry.
+		respCh := make(chan *AllocResp, 1)
+		l.commit(context.WithoutCancel(ctx), respCh, ipv4, ipv6, cni.PodID)
 		return respCh, nil
 	}
 
@@ -633,7 +623,7 @@ func (l *Local) allocWorker(ctx context.Context, cni *daemon.CNI, request *Local
 			}
 		}
 
-		l.commit(ctx, respCh, ipv4, ipv6, cni.PodID)
+		l.commitWithOwner(ctx, respCh, ipv4, ipv6, cni.PodID, ipOwnedBy(ipv4, cni.PodID), ipOwnedBy(ipv6, cni.PodID))
 
 		return
 	}
@@ -1044,9 +1034,20 @@ func (l *Local) Status() Status {
 	return s
 }
 
+// ipOwnedBy report whether the ip is already allocated to the pod
+func ipOwnedBy(ip *IP, podID string) bool {
+	return ip != nil && podID != "" && ip.podID == podID
+}
+
 // commit send the allocated ip result to respCh
 // if ctx canceled, the respCh will be closed
 func (l *Local) commit(ctx context.Context, respCh chan *AllocResp, ipv4, ipv6 *IP, podID string) {
+	l.commitWithOwner(ctx, respCh, ipv4, ipv6, podID, false, false)
+}
+
+// commitWithOwner is commit for a request that may be a repeated one: ownedV4/ownedV6 tell the ip was
+// owned by the pod before this request, a canceled request must not release it
+func (l *Local) commitWithOwner(ctx context.Context, respCh chan *AllocResp, ipv4, ipv6 *IP, podID string, ownedV4, ownedV6 bool) {
 	var ip types.IPSet2
 	if ipv4 != nil {
 		ip.IPv4 = ipv4.ip
@@ -1069,10 +1070,10 @@ func (l *Local) commit(ctx context.Context, respCh chan *AllocResp, ipv4, ipv6 *
 	})
 	select {
 	case <-ctx.Done():
-		if ipv4 != nil {
+		if ipv4 != nil && !ownedV4 {
 			ipv4.Release(podID)
 		}
-		if ipv6 != nil {
+		if ipv6 != nil && !ownedV6 {
 			ipv6.Release(podID)
 		}
 
